@@ -20,7 +20,7 @@ RULE = (
     "identifier, failed assert, unknown directive, misplaced sealing, invalid type parameter, invalid capacity, unknown data type, "
     "and the lazily committed / finalize-time ones: out-of-range constant, invalid attribute name, duplicate attribute name, bad "
     "aggregation, missing serialization mode, expression nested beyond the interpreter stack, file that is not UTF-8) and @print; prefix of 0..2 (thorough 3) and suffix of 0..1 (thorough 2) lines over "
-    "{empty, comment, field, field+comment, directive, padding field, constant, a directive that continues on the next physical line (line break inside a string literal)}; LF / CRLF / lone CR / mixed line endings; location in {target, dependency in a lookup root, dependency of "
+    "{empty, comment, field, field+comment, directive, padding field, constant, a directive that continues on the next physical line (line break inside a string literal), a comment containing FF / VT / FS / GS / RS / NEL / LS / PS}; LF / CRLF / lone CR / mixed line endings; location in {target, dependency in a lookup root, dependency of "
     "a dependency, dependency in the same root read after its referrer, dependency in the same root read before its referrer} with "
     "the reference on line 2..4 of the referrer. Non-trivial iff the prefix is non-empty or the location is not the target; "
     "distinct by canonical hash of the tuple"
@@ -30,7 +30,7 @@ ASSUMPTIONS = [
     "'exactly once per evaluated directive': a directive in the dependency closure is delivered once per read_namespace call",
 ]
 
-CTX = ["E", "C", "F", "F#", "A", "V", "K", "M"]
+CTX = ["E", "C", "F", "F#", "A", "V", "K", "M", "X"]
 
 
 def ctx_line(sym, i, tag):
@@ -46,6 +46,9 @@ def ctx_line(sym, i, tag):
         return "void3"
     if sym == "K":
         return "uint8 K%s%d = 1" % (tag.upper(), i)
+    if sym == "X":
+        # characters that str.splitlines() treats as line boundaries but DSDL does not (only LF / CRLF / CR end a line)
+        return "# form\x0cfeed vt\x0b fs\x1c gs\x1d rs\x1e nel\x85 ls\u2028 ps\u2029 end"
     if sym == "M":
         # ONE statement that continues on the next physical line: the grammar lets a string literal contain a line break
         return "@assert 'two\nlines' != ''"
@@ -148,12 +151,18 @@ def plan(tier):
         for loc in LOCATIONS:
             shards.append({"fault": f, "location": loc})
     shards += H.plan_shards(['faults'])
+    shards += [{"kind": "rf-prints", "part": p, "parts": 4} for p in range(4)]
     return shards
 
 
 def cases(shard, tier):
     if shard.get("kind") == "call-histories":
         yield from H.cases_of(shard)
+        return
+    if shard.get("kind") == "rf-prints":
+        for i, c in enumerate(rf_cases()):
+            if i % shard["parts"] == shard["part"]:
+                yield c
         return
     maxp, maxs = (2, 1) if tier == "quick" else (3, 2)
     for p, s in contexts(maxp, maxs):
@@ -165,7 +174,86 @@ def cases(shard, tier):
                 yield {"fault": shard["fault"], "location": shard["location"], "prefix": p, "suffix": s, "eol": eol, "ref_line": rl}
 
 
+RF_FILES = {
+    "rns/Alpha.1.0.dsdl": "# leaf\nuint8 value\n\n@print 'alpha'\n@sealed\n",
+    "rns/Bravo.1.0.dsdl": "# uses the leaf\n\nAlpha.1.0 leaf\n@print 'bravo'\n@sealed\n",
+    "rns/Charlie.1.0.dsdl": "Bravo.1.0 nested\nAlpha.1.0[2] leaves\n@sealed\n\n\n@print 'charlie'\n",
+    "rns/sub/Delta.1.0.dsdl": "@print 'delta'\nrns.Alpha.1.0 a\n@sealed\n",
+}
+RF_PRINTS = {"rns/Alpha.1.0.dsdl": [4, "'alpha'"], "rns/Bravo.1.0.dsdl": [4, "'bravo'"], "rns/Charlie.1.0.dsdl": [6, "'charlie'"], "rns/sub/Delta.1.0.dsdl": [1, "'delta'"]}
+RF_CLOSURE = {"rns/Alpha.1.0.dsdl": [], "rns/Bravo.1.0.dsdl": ["rns/Alpha.1.0.dsdl"], "rns/Charlie.1.0.dsdl": ["rns/Bravo.1.0.dsdl", "rns/Alpha.1.0.dsdl"], "rns/sub/Delta.1.0.dsdl": ["rns/Alpha.1.0.dsdl"]}
+RF_SPELLINGS = ["plain", "dotdot", "symlink", "str", "relative"]
+
+
+def rf_cases():
+    names = sorted(RF_FILES)
+    for k in (1, 2, 3):
+        for combo in itertools.permutations(names, k):
+            # the same file may be named several times, under several spellings
+            yield {"kind": "rf-prints", "targets": [[n, "plain"] for n in combo]}
+            for sp in RF_SPELLINGS[1:]:
+                yield {"kind": "rf-prints", "targets": [[combo[0], "plain"]] + [[n, "plain"] for n in combo[1:]] + [[combo[0], sp]]}
+                yield {"kind": "rf-prints", "targets": [[combo[0], sp]] + [[n, "plain"] for n in combo[1:]] + [[combo[0], "plain"]]}
+            yield {"kind": "rf-prints", "targets": [[n, "plain"] for n in combo] + [[combo[0], "plain"]]}
+
+
+def check_rf_prints(case, R: engine.Acc):
+    import os
+    from pathlib import Path
+
+    import pydsdl
+
+    from .. import ws
+
+    base = ws.fresh()
+    old = os.getcwd()
+    try:
+        ws.write_tree(base, RF_FILES)
+        (base / "links").mkdir()
+        os.symlink(base / "rns", base / "links" / "rns")
+        os.chdir(base)
+
+        def spell(n, sp):
+            if sp == "plain":
+                return base / n
+            if sp == "dotdot":
+                return base / "rns" / ".." / n
+            if sp == "symlink":
+                return base / "links" / n
+            if sp == "str":
+                return str(base / n)
+            return Path(n)
+
+        prints = []
+        R.case(case, nontrivial=True, sample=(len(case["targets"]) == 3 and case["targets"][-1][1] == "dotdot" and len(R.samples) < 2))
+        try:
+            with engine.deadline(20):
+                pydsdl.read_files([spell(n, sp) for n, sp in case["targets"]], [base / "rns"], [], lambda p, l, t: prints.append([api.rel(base, p), l, t]))
+        except pydsdl.InvalidDefinitionError as ex:
+            if any(sp == "symlink" for _n, sp in case["targets"]):
+                R.outcome("rf-rejected")  # a target reached through a link outside the root may be refused; nothing was printed wrongly
+                return
+            R.violation("rf-prints-call-rejected", "harness: valid read_files call", case, observed=repr(ex)[:300])
+            return
+        closure = set()
+        for n, _sp in case["targets"]:
+            closure.add(n)
+            closure.update(RF_CLOSURE[n])
+        exp = sorted([n] + RF_PRINTS[n] for n in closure)
+        if sorted(prints) != exp:
+            dup = len(prints) != len({(p[0], p[1]) for p in prints})
+            R.outcome("print-wrong")
+            R.violation("print-delivered-%s:read_files" % ("more-than-once" if dup else "wrongly"), "@print is delivered exactly once per directive with its path and line, however often and under whatever spelling a file is named", case, observed=sorted(prints), expected=exp)
+        else:
+            R.outcome("rf-print-ok")
+    finally:
+        os.chdir(old)
+        ws.remove(base)
+
+
 def check_case(case, R: engine.Acc):
+    if case.get("kind") == "rf-prints":
+        return check_rf_prints(case, R)
     if case.get("kind") == "call-history":
         return H.check_history(case["label"], R, H.project_error_location, 'attribution-depends-on-earlier-calls', 'errors and @print output carry the path and line of the file read in THIS call')
     files, root, lookups, fpath, fl, lfl, ref_prints = build(case)
@@ -225,6 +313,6 @@ def check_case(case, R: engine.Acc):
 
 
 def finish(tier, M):
-    if not M.hist.get("attributed-ok") or not M.hist.get("print-ok"):
+    if not M.hist.get("attributed-ok") or not M.hist.get("print-ok") or not M.hist.get("rf-print-ok"):
         raise engine.Vacuous(repr(dict(M.hist)))
     return {"faults": [f[0] for f in FAULTS] + ["missing-mode"], "locations": LOCATIONS, "line_not_reported": {k: v for k, v in M.counters.items() if k.startswith("line_not_reported")}}
